@@ -10,6 +10,7 @@ import FunModel.Drv.C06
 import FunModel.Drv.C03
 import FunModel.Drv.C10
 import FunModel.Drv.C15
+import FunModel.Drv.C01
 
 /-! Line-protocol driver: `driver <property>` reads one S-expression per line on stdin and prints
     the model's observation for it on one line. Core Lean only (no Mathlib) so it links. -/
@@ -30,6 +31,8 @@ def handlerFor : String → Option (Sexp → String)
   | "C10" => some DrvC10.handle
   | "C17" => some DrvC16.handle
   | "C15" => some DrvC15.handle
+  | "C01" => some DrvC01.handle
+  | "C04" => some DrvC01.handle
   | _ => none
 
 partial def loop (h : IO.FS.Stream) (out : IO.FS.Stream) (f : Sexp → String) : IO Unit := do
